@@ -1111,6 +1111,22 @@ impl ConfigBuilder {
     pub fn build(&self) -> Result<Config, ConfigBuilderError> {
         // check all constraints on config
 
+        if self.config.protocol.default_max_transmit_size < 100 {
+            return Err(ConfigBuilderError::MaxTransmissionSizeTooSmall);
+        }
+
+        let default_mesh_params = &self.config.topic_configuration.default_mesh_params;
+        if !(default_mesh_params.mesh_outbound_min <= default_mesh_params.mesh_n_low
+            && default_mesh_params.mesh_n_low <= default_mesh_params.mesh_n
+            && default_mesh_params.mesh_n <= default_mesh_params.mesh_n_high)
+        {
+            return Err(ConfigBuilderError::MeshParametersInvalid);
+        }
+
+        if default_mesh_params.mesh_outbound_min * 2 > default_mesh_params.mesh_n {
+            return Err(ConfigBuilderError::MeshOutboundInvalid);
+        }
+
         let pre_configured_topics = self.config.protocol.max_transmit_sizes.keys();
         for topic in pre_configured_topics {
             if self.config.protocol.max_transmit_size_for_topic(topic) < 100 {
